@@ -362,6 +362,13 @@ ares_status_t ares_array_claim_at(void *dest, size_t dest_size,
   }
 
   arr->cnt--;
+
+  /* An empty array has nothing to preserve, restart at the beginning of the
+   * allocation.  Otherwise removing every member from the front leaves
+   * offset == alloc_cnt and all future inserts fail. */
+  if (arr->cnt == 0) {
+    arr->offset = 0;
+  }
   return ARES_SUCCESS;
 }
 
